@@ -193,7 +193,11 @@ def _count_kind(fn, t, at, na_name):
     from ..forms import resolve
     from ..dataflow import defs_reaching
     from ..pattern import pmatch
-    t = resolve(fn, t, at)
+    from ..forms import resolved_text
+    try:
+        t = ast.parse(resolved_text(fn, t, at), mode="eval").body
+    except SyntaxError:
+        pass
     S0 = fn.params[0]
     if isinstance(t, ast.Constant) and isinstance(t.value, int):
         return "offset"
@@ -229,7 +233,8 @@ def _count_kind(fn, t, at, na_name):
                         v = v.args[0]
                     else:
                         break
-                if pmatch(f"{S0}[~{na_name}]", v) is not None:
+                if pmatch(f"{S0}[~{na_name}]", v) is not None or \
+                        resolved_text(fn, v, d.node.ast if d.node is not None else at).replace("(", "").replace(")", "") == f"{S0}[~{na_name}]":
                     continue
                 if isinstance(v, ast.Name):
                     cur.append(v.id)
